@@ -176,6 +176,8 @@ fn main() {
                 _ if engine == "e2e-height" => e2e::replay_height(case),
                 _ if engine == "e2e-poll" => e2e::replay_poll(case),
                 _ if engine == "e2e-isolation" => e2e::replay_isolation(case),
+                _ if engine == "e2e-err-text" => e2e::replay_err_text(case),
+                _ if engine == "e2e-inflight-notify" => e2e::replay_inflight_notify(case),
                 _ if engine == "e2e-config" => props::c19::replay(case),
                 _ if engine == "e2e-slow-pay" => e2e::replay_slow_pay(case),
                 _ if engine == "par" => props::par::replay(leaked, case),
